@@ -106,6 +106,16 @@ def stream_monitor(rec, case):
             _, ri, _, text, a, b = h
             prod = getattr(reg[ri], "__name__", "")
             validate(rec, n, text[a:b], FREE.get(prod) == n.type, case.witness(), case.size)
+            # 'the text it covers' is also what the TREE says the node covers: parent.value[start:end] (contexts equal their text up to case)
+            p = n.parent
+            if p is not None and n.start >= 0:
+                cov = n.original  # what the tree says the node covers (a span that runs past the parent's value covers less than reported)
+                if n.type == "network.url" and n.value.lower() != url_ref.pct_normalise(cov).lower():
+                    rec.violation("C10.url.covers", "url-value-vs-covered-text-in-tree", case.witness(),
+                                  f"URL node value {core.short(n.value, 60)} is not the normalised text it covers in its parent: {core.short(cov, 60)}", case.size)
+                elif n.type == "network.ip" and FREE.get(prod) == n.type and n.value != cov:
+                    rec.violation("C10.ip.covers", "ip-value-vs-covered-text-in-tree", case.witness(),
+                                  f"free-text IPv4 node value {n.value!r} differs from the text it covers in its parent {cov!r}", case.size)
         else:
             p = n.parent
             orig = p.value[n.start : n.end] if p is not None and 0 <= n.start <= n.end <= len(p.value) else None
@@ -163,7 +173,7 @@ def run_unit(unit, rec):
         schemes = c12.SCHEMES + [b"gopher", b"HTTPX", b"ftps", b"file"]
         half = len(schemes) // 2
         for scheme in (schemes[:half] if unit[1] == 0 else schemes[half:]):
-            for ui, host, port, path, q, f, e in itertools.product(c12.USERINFO, c12.HOSTS + [b"", b"a", b"%zz.com", b".com", b"%2Einfo", b"..com", b".a.com", b"a..com", b"-.org", b"....", b"com."], c12.PORTS, (b"", b"/", b"/%41/%2f/..%zz"), c12.QUERIES, c12.FRAGS, c12.EMBED):
+            for ui, host, port, path, q, f, e in itertools.product(c12.USERINFO, c12.HOSTS + [b"", b"a", b"%zz.com", b".com", b"%2Einfo", b"..com", b".a.com", b"a..com", b"-.org", b"....", b"com.", b"[::1%47]", b"[fe80::1%25eth0]", b"[::1%2541]"], c12.PORTS, (b"", b"/", b"/%41/%2f/..%zz"), c12.QUERIES, c12.FRAGS, c12.EMBED):
                 url = scheme + b"://" + ui + host + port + path + q + f
                 data = c12.embed(url, e)
                 call(rec, network.find_urls, data, {"kind": "call", "fn": "find_urls", "data": data})
